@@ -3,6 +3,7 @@ CONSTANTS
   MaxDepth = 6
   WakeKeeps = TRUE
   RegisterFlagInverted = FALSE
+  DropOldBeforeStore = FALSE
 SPECIFICATION Spec
 VIEW View
 PROPERTIES C17_LWSteps
